@@ -774,6 +774,10 @@ impl Check for FireCheck {
         run.set("aux_rule", rng.chance(1, 3) as i64);
         run.set("crate_rewrite", rng.chance(1, 2) as i64);
         run.set("warm_rules", Rng::stream(seed, "warm").chance(1, 4) as i64);
+        {
+            let mut ps = Rng::stream(seed, "pat-slot-like-class");
+            run.set("pat_slot_like_class", if ps.chance(1, 6) { 1 + ps.below(1000) as i64 } else { 0 });
+        }
         // scale scenario (own stream): thousands of instances of one left side in one call
         let mut sr = Rng::stream(seed, "scale");
         if self.id == "C04" && sr.chance(1, 1500) {
@@ -963,8 +967,27 @@ impl Check for FireCheck {
             out.discarded = Some("instance_not_present".into());
             return out;
         };
-        let cl: Pattern<LS> = l.to_pattern::<LS>(&mut s.nm);
-        let cr: Pattern<LS> = r.to_pattern::<LS>(&mut s.nm);
+        // the rule is written after the e-graph was built. Its slots are pattern-local names; in a sixth
+        // of the runs one of its free slots is spelled exactly like a parameter slot of some class
+        // (the user read the name off the e-graph) - it still stands for any slot.
+        let (cl, cr): (Pattern<LS>, Pattern<LS>) = if run.get("pat_slot_like_class") != 0 {
+            let mut nm2 = s.nm.clone();
+            let mut class_slots: Vec<Slot> = Vec::new();
+            for id in s.eg.ids() {
+                class_slots.extend(s.eg.slots(id).iter().copied());
+            }
+            class_slots.sort();
+            class_slots.dedup();
+            let lf = l.inst(&vars.iter().map(|v| (*v, Tm::pay("k", 0))).collect()).free_vec();
+            if !class_slots.is_empty() && !lf.is_empty() {
+                let k = run.get("pat_slot_like_class") as usize;
+                nm2.force(lf[k % lf.len()], class_slots[(k / 7) % class_slots.len()]);
+                out.bump("pattern_slot_spelled_like_a_class_slot");
+            }
+            (l.to_pattern::<LS>(&mut nm2), r.to_pattern::<LS>(&mut nm2))
+        } else {
+            (l.to_pattern::<LS>(&mut s.nm), r.to_pattern::<LS>(&mut s.nm))
+        };
         let (cl2, cr2) = (cl.clone(), cr.clone());
         let mut rules: Vec<Rewrite<LS, ()>> = Vec::new();
         #[allow(unused_mut)]
